@@ -925,6 +925,9 @@ def op_tracker(op, oid, ctx):
         path = os.path.join(RESDIR, op["name"])
         open(path, "w").close()
         rt.register(path, "file")
+    elif what in ("kill", "signal") and rt._resource_tracker._pid is None:
+        # no tracker at the moment (its launch was interrupted by the plan): nothing to kill or to signal
+        return {"tracker_pid": None, "tracker_state": None, "skipped": True, "res": sorted(os.listdir(RESDIR)), "shm": shm_list()}
     elif what == "kill":
         pid = rt._resource_tracker._pid
         log("fault", kind="ext_kill", target=pid, sig=op.get("sig", "SIGKILL"), role="driver", victim="tracker")
